@@ -353,9 +353,9 @@ def _c12_sweeps():
     import itertools as _it
     for kind in ("uset", "umap", "ummap", "oset", "ommap"):
         lvs = ("1",) if kind[0] == "u" else ("1231", "3333")
-        sw = [{"prog": "S|I%d|I%d" % ab, "kind": kind, "prekeys": pk, "lv": lv} for lv in lvs for pk in ("9,3", "1,9,3,12", "") for ab in _it.combinations((1, 2, 4, 6, 17), 2)]
-        L.append(sweep("sweep-%s-range" % kind, "c12_assoc", (1, 2), sw, what="%s: a traversal through range() that is split in two rounds and walked piece by piece, racing two inserts (keys 1, 2, 4 equal the indices of the buckets at which an 8-bucket table is split: they land directly behind a bucket's dummy node); every element present before is seen exactly once, none twice" % kind,
-                       tiers=("quick", "thorough") if kind == "uset" else ("thorough",)))
+        sw = [{"prog": "S|I%d|I%d" % ab, "kind": kind, "prekeys": pk, "lv": lv, "rounds": 2 if kind[0] == "u" else 3} for lv in lvs for pk in ("9,3", "1,9,3,12", "") for ab in _it.combinations((1, 2, 4, 6, 17), 2)]
+        L.append(sweep("sweep-%s-range" % kind, "c12_assoc", (1, 2), sw, what="%s: a traversal through range() that is split in two rounds and walked piece by piece, racing two inserts (keys 1, 2, 4 equal the indices of the buckets at which an 8-bucket table is split: they land directly behind a bucket's dummy node); every element present before is seen exactly once, none twice (ordered kinds: three splitting rounds; a split point outside the piece is the recorded finding)" % kind,
+                       tiers=("quick", "thorough") if kind in ("uset", "oset") else ("thorough",)))
     qa = ["I7", "I8", "C7"]
     for kind in ("ummap", "umset"):
         sw = [{"prog": prog_str(t), "kind": kind, "hash": "const", "prekeys": pk} for pk in ("5", "7") for t in thread_programs(qa, 2, 2, keep=useful)]
